@@ -311,7 +311,7 @@ func ddminText(toks []string, pred func([]string) bool, budget int) []string {
 func layerCrash(h *harness.H) {
 	h.AddRule("crash layer: token-level mutants of generated programs, token soup, byte noise and pathological shapes through " +
 		"text.Parse -> text.Analyze -> compiler.Compile -> wazero in a child process; distinct = distinct input texts that completed")
-	total := h.N(3000, 200000)
+	total := h.N(3000, 120000)
 	batches := (total + crashBatchSize - 1) / crashBatchSize
 	dir := replayDir(h)
 	ctx := context.Background()
